@@ -656,7 +656,7 @@ class Executor(ExprMixin, StmtMixin, Engine):
             for j, e in enumerate(top.call_asserts[c.key]):
                 e, props = clause(e)
                 self.clause_props = props
-                scope = dict(args)
+                scope = {'arg_' + k: v for k, v in args.items()}
                 self.prove(st, self.spec(e, st, scope, self.fn_old), 'call-assert', line, '%s.%d' % (cname, j), text=e,
                            stable_name='%s:call-assert:%s.%d' % (self.cur_fn_stack[0].split(':')[1], cname, j))
                 self.clause_props = None
